@@ -307,6 +307,46 @@ def sign_set(h: G, d: Rat):
     return None
 
 
+NONNEG_ATOMS = set()      # atoms a constructor proves >= 0 (set by a check next to POSITIVE_ATOMS; used only by pair_contradiction)
+
+
+def _definite_sign(p):
+    """'pos' / 'nonneg' for a polynomial with coefficients >= 0 over atoms known positive / non-negative, else None"""
+    if not p.t:
+        return None
+    strict = False
+    for mono, c in p.t.items():
+        if c < 0:
+            return None
+        if all(a in POSITIVE_ATOMS or a.startswith('F[') or a == 'pi' for a, _ in mono):
+            strict = strict or c > 0
+        elif not all(a in POSITIVE_ATOMS or a in NONNEG_ATOMS or a.startswith('F[') or a == 'pi' or e % 2 == 0 for a, e in mono):
+            return None
+    return 'pos' if strict else 'nonneg'
+
+
+def pair_contradiction(g: G, h: G) -> bool:
+    """two order guards d1 (<|<=) 0 and d2 (<|<=) 0 whose positive combination d1 + k*d2 (k > 0 chosen to cancel one
+    monomial) is definitely positive cannot hold together - e.g. D + t < 0 and t - D < 0 with t > 0"""
+    if g.key[0] not in ('<', '<=') or h.key[0] not in ('<', '<='):
+        return False
+    a, b = g.rat, h.rat
+    if not (a.d.is_const() and b.d.is_const()):
+        return False
+    ca, cb = a.d.const_value(), b.d.const_value()
+    pa = a.n if ca > 0 else -a.n
+    pb = b.n if cb > 0 else -b.n
+    for mono, c1 in pa.t.items():
+        c2 = pb.t.get(mono)
+        if c2 is None or (c1 > 0) == (c2 > 0) or not mono:
+            continue
+        k = -c1 / c2
+        sg = _definite_sign(pa + pb * Poly.const(k))
+        if sg == 'pos' or (sg == 'nonneg' and '<' in (g.key[0], h.key[0])):
+            return True
+    return False
+
+
 def implies(guards, g: G) -> bool:
     """conjunction `guards` syntactically/sign-lattice implies g"""
     st = static_truth(g)
@@ -371,6 +411,8 @@ class State:
                 return None
             if known <= allowed:
                 return self
+            if (POSITIVE_ATOMS or NONNEG_ATOMS) and any(h.kind == 'cmp' and pair_contradiction(g, h) for h in self.guards):
+                return None
         else:
             for h in self.guards:
                 if h.same(g):
@@ -465,6 +507,7 @@ class SX:
         self.fn_transform = None           # callable(FunctionDef) -> FunctionDef: semantic-preserving normalisation before evaluation
         self._fn_cache = {}
         self.div_sites = []                # (BinOp node, denominator term, guards) of every division (track_div_zero)
+        self.cmp_sides = None              # when a list: (node, op, left term, right term) of every numeric comparison evaluated
         self.guard_sources = {}            # (kind, key) of a guard -> source texts of the tests that produced it
         self.variable_kinds = {}           # recorded-variable name -> quantity kind (typing of time_variables[...])
         self._field_types = {}
@@ -815,6 +858,13 @@ class SX:
                             nxt.append(o.state)
                 cur = nxt
             return [Outcome(c, 'fall') for c in cur]
+        if isinstance(target, (ast.Tuple, ast.List)) and isinstance(value, (Dyn, Unk)) \
+                and all(isinstance(t, ast.Name) for t in target.elts):
+            # unpacking a value of unknown shape (a remembered tuple, a call result): its components are unknown numbers
+            s = st.copy()
+            for i, t in enumerate(target.elts):
+                s.env[t.id] = Dyn(Rat.atom(f'{self.show(value)}[{i}]'))
+            return [Outcome(s, 'fall')]
         raise CannotDecide(f'assignment target {ast.unparse(target)}')
 
     def store_attr(self, obj: V, attr, value: V, st: State, frame, lineno) -> list:
@@ -1698,9 +1748,23 @@ class SX:
             if (obj.path, mangled) in st.heap:
                 return [(st, st.heap[(obj.path, mangled)])]
             owner = frame['cls'] or cls
-            # class attribute (e.g. __UNITS)?
             ci = self.model.classes.get(owner)
+            # a private property / method of the class the code is written in
+            pm = ci.members.get(attr) if ci else None
+            if pm is not None and pm.kind == 'property':
+                outs = self.run(pm.node, pm.module, pm.cls, obj, {}, st, frame['depth'] + 1)
+                return [(o.state, o.value) if o.kind == 'return' else ((o.state, NoneV()) if o.kind == 'fall' else o)
+                        for o in outs]
+            if pm is not None:
+                return [(st, Fv(f'bound:{attr}'))]
+            # class attribute (e.g. __UNITS)?
             if ci and attr in ci.class_attrs:
+                d = ci.class_attrs[attr]
+                if not attr.endswith('__UNITS') and isinstance(d, ast.Dict) and d.keys and all(
+                        isinstance(k, ast.Constant) and isinstance(k.value, str) for k in d.keys):
+                    vals = {k.value: self.const_value(v) for k, v in zip(d.keys, d.values)}
+                    if not any(isinstance(v, Unk) for v in vals.values()):
+                        return [(st, Dv(vals))]          # a second constant table of the class (string keys, constant values)
                 return [(st, Unk(f'{owner}.{attr}'))]
             ty = self.field_type(owner, mangled)
             name = f'{obj.path}.{self.canon_field(cls or owner, mangled)}'
@@ -1917,6 +1981,16 @@ class SX:
                     raise CannotDecide('chained comparison around a call')
             return self.eval_x(ast.copy_location(ast.BoolOp(op=ast.And(), values=parts), n), st, frame)
         op = n.ops[0]
+        if isinstance(op, (ast.In, ast.NotIn)) and isinstance(n.comparators[0], (ast.Tuple, ast.List, ast.Set)) \
+                and 1 <= len(n.comparators[0].elts) <= 6 and not any(isinstance(x, ast.Call) for x in ast.walk(n)) \
+                and all(isinstance(e, (ast.Name, ast.Attribute)) for e in n.comparators[0].elts):
+            # x in (A, B)  ==  x == A or x == B   (membership in a display of names: the same atoms as the == tests)
+            neg = isinstance(op, ast.NotIn)
+            parts = [ast.copy_location(ast.Compare(left=n.left, ops=[ast.NotEq() if neg else ast.Eq()], comparators=[e]), n)
+                     for e in n.comparators[0].elts]
+            if len(parts) == 1:
+                return self.eval_x(parts[0], st, frame)
+            return self.eval_x(ast.copy_location(ast.BoolOp(op=ast.And() if neg else ast.Or(), values=parts), n), st, frame)
         res = []
         for r in self.eval_list([n.left, n.comparators[0]], st, frame):
             if isinstance(r, Outcome):
@@ -1950,6 +2024,12 @@ class SX:
                     member = True if l.unit.lit is None else l.unit.lit in self.tables.table_of(fam)
                 if member is not None:
                     return Bv(member != isinstance(op, ast.NotIn))
+            if isinstance(l, Uv) and isinstance(r, Dv):
+                if l.unit.lit is None:
+                    raise CannotDecide(f'membership of a symbolic unit in a constant table: {ast.unparse(n)[:60]}')
+                return Bv((l.unit.lit in r.items) != isinstance(op, ast.NotIn))
+            if isinstance(l, Sv) and isinstance(r, Dv):
+                return Bv((l.s in r.items) != isinstance(op, ast.NotIn))
             if self.eval_comprehensions and isinstance(l, Sv) and isinstance(r, (Tv, Dv)):
                 keys = list(r.items) if isinstance(r, Dv) else [i.s if isinstance(i, Sv) else None for i in r.items]
                 if None not in keys:
@@ -1965,6 +2045,8 @@ class SX:
                 if bl != br:
                     return Outcome(st, 'raise', 'TypeError', n.lineno)
             g = cmp_guard(op, l.term, r.term)
+            if self.cmp_sides is not None:
+                self.cmp_sides.append((n, type(op).__name__, l.term, r.term))
             t = static_truth(g)
             return Bv(t) if t is not None else Bsym(g)
         if (isinstance(l, Q) and isinstance(r, N)) or (isinstance(l, N) and isinstance(r, Q)):
@@ -1988,6 +2070,8 @@ class SX:
             if isinstance(l, Uv) and isinstance(r, Uv):
                 if l.unit.key() == r.unit.key():
                     return Bv(not isinstance(op, ast.NotEq))
+                if l.unit.lit is not None and r.unit.lit is not None:
+                    return Bv(isinstance(op, ast.NotEq))          # two different literal unit names
                 g = G('eq', tuple(sorted((repr(l.unit), repr(r.unit)))))
                 return Bsym(g.negate() if isinstance(op, ast.NotEq) else g)
             if isinstance(l, Cv) and isinstance(r, Cv) and l.of is None and r.of is None:
@@ -2038,6 +2122,10 @@ class SX:
             except ValueError:
                 raise CannotDecide(f'slice {idx.text[6:]} of a concrete list')
             return Tv(list(base.items[sl]), base.kind)
+        if isinstance(base, Dv) and isinstance(idx, Uv):
+            if idx.unit.lit is None:
+                raise CannotDecide(f'constant table subscripted by a symbolic unit {idx.unit!r}')
+            idx = Sv(idx.unit.lit)
         if isinstance(base, Dv) and isinstance(idx, Sv):
             if idx.s in base.items:
                 return base.items[idx.s]
